@@ -12,6 +12,7 @@ import SkNet.Lemmas.Aggregate
 import SkNet.Lemmas.Reorder
 import SkNet.Lemmas.MergeW
 import SkNet.Lemmas.DasguptaInit
+import SkNet.Lemmas.DasguptaDef
 
 namespace SkNet.C08
 open SkNet SkNet.Dendro SkNet.Cut
@@ -721,6 +722,78 @@ example : Square 3 ([[0, 2, 1], [2, 0, 3], [1, 3, 0]] : Mat) ∧
       ([⟨1, 2, 1, 2⟩, ⟨3, 0, 2, 3⟩] : Dendro Nat)).toOption = some (5 / 6) := by
   refine ⟨⟨rfl, by decide⟩, by decide, by decide +kernel⟩
 
+/-- **The Dasgupta cost is the one of its definition** (`dasgupta_eq_def`): for every square non-negative matrix
+    with positive total weight, both node weightings and every valid dendrogram over its `n ≥ 2` nodes, the value
+    computed by `dasgupta_cost` (the replay of `AggregateGraph.merge` along the dendrogram, `edge_sampling · weights`)
+    is `Σ_{u,v} p(u,v) · π(u ∧ v)`, where `p` is the symmetrised, normalised edge weight, `u ∧ v` the first node of
+    the dendrogram whose leaves contain both `u` and `v`, and `π` the weight of its leaf set — also in the
+    unnormalised variants. -/
+theorem dasgupta_eq_def {n : Nat} {a : Mat} {D : Dendro α} (degree normalized : Bool) (hn : 2 ≤ n)
+    (hsq : Square n a) (hnn : ∀ i j, 0 ≤ a.get i j) (htot : 0 < a.total) (hv : ValidDendro n D = true) :
+    dasguptaCost degree normalized n a D = .ok (dasguptaDefCost degree normalized n a D) := by
+  have hlen := valid_length hv
+  have hvl : validLoop n 0 D (sizesOf (initCluster n)) = true := by
+    rw [sizesOf_initCluster]
+    unfold ValidDendro ValidDendroW at hv
+    simp only [Bool.and_eq_true, List.length_replicate] at hv
+    exact hv.2
+  have hJ0 := jinv_init degree (by omega : 0 < n) hsq hnn htot
+  have hP : ∀ u v, (fun u v => (symmetrize n a).get u v / (symmetrize n a).total) u v =
+      (fun u v => (symmetrize n a).get u v / (symmetrize n a).total) v u := by
+    intro u v; simp only; rw [symmetrize_symm]
+  obtain ⟨he, hw⟩ := samplingLoop_leaf (P := fun u v => (symmetrize n a).get u v / (symmetrize n a).total)
+    (wr := fun x => (probsRow degree n a).getD x 0) (wc := fun x => (probsCol degree n a).getD x 0)
+    D D [] (instantiate degree n a) (initCluster n) { edge := [], node := [], weight := [] }
+    (by simp) hJ0 (leafInv_init degree n a) hvl rfl rfl
+  have hdot : dot (samplingLoop n D (instantiate degree n a) { edge := [], node := [], weight := [] }).edge
+      (samplingLoop n D (instantiate degree n a) { edge := [], node := [], weight := [] }).weight =
+      dasguptaDef degree n a D := by
+    rw [he, hw]
+    unfold dot dasguptaDef
+    rw [sumR_eq_sum, sumR_eq_sum, zip_map_mul, sum_flatMap_map]
+    show S (List.range D.length) _ = _
+    rw [S_congr (g := fun t => S (List.range n) (fun u => S (List.range n) (fun v =>
+      if lcaRow n D u v = some t then
+        (symmetrize n a).get u v / (symmetrize n a).total * clusterWeight degree n a D t else 0))) ?_]
+    · rw [S_comm]
+      apply S_congr; intro u _
+      rw [S_comm]
+      apply S_congr; intro v _
+      refine (S_select D.length (lcaRow n D u v)
+        (fun t => (symmetrize n a).get u v / (symmetrize n a).total * clusterWeight degree n a D t) ?_).trans ?_
+      · intro t ht
+        exact ((find?_range _ _ _).mp ht).1
+      · cases lcaRow n D u v <;> rfl
+    · intro t ht
+      simp only [List.mem_range] at ht
+      obtain ⟨hD, hl⟩ := split_at (List.getElem?_eq_getElem ht)
+      have hv' : ValidDendro n (D.take t ++ D[t] :: D.drop (t + 1)) = true := by rw [← hD]; exact hv
+      have e1 := edgeAt_eq hP hv'
+      have e2 := weightAt_eq degree a hv'
+      rw [← hD, hl] at e1 e2
+      rw [e1, e2, ← S_mul_right]
+      apply S_congr; intro u _
+      rw [← S_mul_right]
+      apply S_congr; intro v _
+      split <;> simp
+  have htake : D.take (n - 1) = D := List.take_of_length_le (by omega)
+  unfold dasguptaCost getSamplingDistributions dasguptaDefCost
+  have e1 : (a.total == 0) = false := by
+    have : a.total ≠ 0 := ne_of_gt htot
+    simpa using this
+  have e2 : ¬ n < 2 := by omega
+  have e3 : ¬ D.length + 1 < n := by omega
+  simp only [e1, Bool.false_and, Bool.false_eq_true, if_false, e2, e3, htake, hdot]
+
+/-- non-vacuity: on the weighted triangle above the definition gives 5/6 (normalised) and 5/6 · 3 (unnormalised,
+    uniform weights) -/
+example : dasguptaDefCost false true 3 [[0, 2, 1], [2, 0, 3], [1, 3, 0]]
+      ([⟨1, 2, 1, 2⟩, ⟨3, 0, 2, 3⟩] : Dendro Nat) = 5 / 6 ∧
+    dasguptaDefCost false false 3 [[0, 2, 1], [2, 0, 3], [1, 3, 0]]
+      ([⟨1, 2, 1, 2⟩, ⟨3, 0, 2, 3⟩] : Dendro Nat) = 5 / 2 := by
+  refine ⟨by decide +kernel, by decide +kernel⟩
+
 end dasgupta
+
 
 end SkNet.C08
